@@ -67,3 +67,16 @@ func VerifMetricNames() []string {
 	}
 	return out
 }
+
+// VerifHas reports whether the shard map holds keyHash (no lock: caller is alone).
+func VerifHas[K Key, V any](c *Cache[K, V], keyHash uint64) bool {
+	sm := c.storedItems.(*shardedMap[V])
+	_, ok := sm.shards[keyHash%numShards].data[keyHash]
+	return ok
+}
+
+// VerifAccount returns the number of accounted keys, the used cost and the max cost.
+func VerifAccount[K Key, V any](c *Cache[K, V]) (int, int64, int64) {
+	e := c.cachePolicy.evict
+	return len(e.keyCosts), e.used, e.maxCost
+}
